@@ -357,7 +357,12 @@ class _Twins:
             kw = {"cache_type": ct, "cache_kwargs": {"max_size": cap, "shared": bool(d["shared"])}}
         elif ct == "disk":
             self.scratch = boot.fresh_dir("c09disk")
-            ck = {"cache_dir": self.scratch, "lru_shared": bool(d["shared"]), "with_lru_cache": bool(d["disk_lru"]), "lru_cache_size": cap}
+            # the in-memory layer in front of the files is sized independently of the file store: for every other
+            # history it holds a single entry, so most resident entries live on disk only
+            lru_cap = 1 if len(d["ops"]) % 2 else cap
+            ck = {"cache_dir": self.scratch, "lru_shared": bool(d["shared"]), "with_lru_cache": bool(d["disk_lru"]), "lru_cache_size": lru_cap}
+            if d["disk_lru"] and lru_cap < cap:
+                self.labels.add("disk:lru-layer-smaller-than-store")
             if not self.ample:
                 ck["max_size"] = cap
             kw = {"cache_type": "disk", "cache_kwargs": ck}
@@ -1004,12 +1009,125 @@ def body_race(data) -> Outcome:
 # ------------------------------------------------------------------------------------------------
 
 
+# ------------------------------------------------------------------------------------------------
+# map-context campaign: functions whose result depends on more than the element's own arguments (evaluated
+# `resources` handed in through `resources_variable`, with element or whole-map scope; a reduction downstream),
+# mapped several times with *different* input arrays that share element values, on one cached pipeline
+
+
+def _res_map(kw):
+    from pipefunc.resources import Resources
+
+    return Resources(cpus=1 + len(kw["x"]), memory=f"{1 + sum(int(v) for v in kw['x']) % 5}GB")
+
+
+def _res_elem(kw):
+    from pipefunc.resources import Resources
+
+    return Resources(cpus=1 + int(kw["x"]) % 3, memory="1GB")
+
+
+def _ctx_f(x, res):
+    return f"f({x}|{res.cpus},{res.memory})"
+
+
+def _ctx_f_plain(x):
+    return f"f({x})"
+
+
+def _ctx_g(y, k=0):
+    return f"g({y},{k})"
+
+
+def _ctx_h(z):
+    return "h(" + ",".join(z) + ")"
+
+
+@st.composite
+def ctx_cases(draw):
+    return {
+        "scope": draw(st.sampled_from(["map", "map", "element", "none"])),
+        "static": draw(st.integers(0, 3)) == 0,  # resources given as a fixed dict instead of a callable
+        "cache_type": draw(st.sampled_from(["simple", "lru", "hybrid", "disk"])),
+        "cached": draw(st.lists(st.booleans(), min_size=3, max_size=3)),
+        "runs": draw(st.lists(st.lists(st.integers(0, 3), min_size=1, max_size=4), min_size=2, max_size=4)),
+        "ks": draw(st.lists(st.integers(0, 1), min_size=4, max_size=4)),
+    }
+
+
+def _ctx_pipeline(data, cache_type, scratch):
+    from pipefunc import PipeFunc, Pipeline
+
+    c = data["cached"] if cache_type else [False] * 3
+    if data["scope"] == "none":
+        f = PipeFunc(_ctx_f_plain, "y", mapspec="x[i] -> y[i]", cache=c[0])
+    else:
+        res = {"cpus": 2, "memory": "3GB"} if data["static"] else (_res_map if data["scope"] == "map" else _res_elem)
+        f = PipeFunc(_ctx_f, "y", mapspec="x[i] -> y[i]", cache=c[0], resources=res, resources_variable="res",
+                     resources_scope=data["scope"])  # fmt: skip
+    g = PipeFunc(_ctx_g, "z", mapspec="y[i] -> z[i]", cache=c[1])
+    h = PipeFunc(_ctx_h, "w", cache=c[2])
+    kw = {}
+    if cache_type == "disk":
+        kw["cache_kwargs"] = {"cache_dir": scratch, "lru_cache_size": 2}
+    elif cache_type in ("lru", "hybrid"):
+        kw["cache_kwargs"] = {"max_size": 64}
+    return Pipeline([f, g, h], cache_type=cache_type, **kw)
+
+
+def body_ctx(data) -> Outcome:
+    out = Outcome()
+    scratch = boot.fresh_dir("c09ctx")
+    if not any(data["cached"]):
+        data = dict(data, cached=[True, data["cached"][1], data["cached"][2]])
+    try:
+        try:
+            pu = _ctx_pipeline(data, None, scratch)
+            pc = _ctx_pipeline(data, data["cache_type"], scratch)
+        except Exception as e:
+            out.fail(exc_bucket(e, "ctx-build-refused"), exc_detail(e))
+            return out
+        seen_elems: set = set()
+        shared_elems = False
+        for r, xs in enumerate(data["runs"]):
+            inputs = {"x": list(xs), "k": data["ks"][r]}
+            shared_elems |= bool(seen_elems & set(xs)) and tuple(xs) not in {tuple(p) for p in data["runs"][:r]}
+            seen_elems |= set(xs)
+            try:
+                ref = pu.map(inputs, parallel=False, storage="dict")
+            except Exception:
+                out.labels.append("n/a:uncached-raised")
+                return out
+            try:
+                got = pc.map(inputs, parallel=False, storage="dict")
+            except Exception as e:
+                out.fail(exc_bucket(e, f"ctx-cached-raised-scope-{data['scope']}"), exc_detail(e), {"run": r})
+                return out
+            out.units += 3
+            for o in ("y", "z", "w"):
+                a, b = mp.canon(ref[o].output), mp.canon(got[o].output)
+                if a != b:
+                    out.fail(f"ctx-value-differs-scope-{data['scope']}{'-static' if data['static'] else ''}-{o}",
+                             f"run {r} inputs {inputs}: {o} cached {str(b)[:200]} uncached {str(a)[:200]}", {"run": r, "output": o})
+                    return out
+        out.labels += [f"ctx:scope-{data['scope']}", f"ctx:cache-{data['cache_type']}", f"ctx:runs-{len(data['runs'])}"]
+        if shared_elems:
+            out.labels.append("ctx:runs-share-elements-in-different-arrays")
+        out.nontrivial = shared_elems
+    finally:
+        boot.rm(scratch)
+    return out
+
+
 def campaigns(tier):
     return [
         Campaign("history", body_history, histories(), quick=10000, thorough=160000,
                  describe="twin pipelines (cached / uncached) x histories of calls and mutations"),  # fmt: skip
         Campaign("map", body_map, map_cases(), quick=1000, thorough=16000,
                  describe="MapPrograms mapped twice with a cache vs. without, repeated input values"),  # fmt: skip
+        Campaign("map-context", body_ctx, ctx_cases(), quick=600, thorough=10000,
+                 describe="a cached mapped function receiving evaluated resources (element / whole-map scope) + reduction, several "
+                          "maps with different arrays that share element values on one cached pipeline"),  # fmt: skip
         Campaign("race", body_race, race_cases(), quick=400, thorough=6000,
                  describe="another worker's eviction / half-written file injected at the cache's membership test"),  # fmt: skip
     ]
